@@ -174,6 +174,21 @@ class UnitFile:
                            "skeleton": skeleton_hash(it.text)})
         self.skeletons[gname] = skeleton_hash(it.text)
         if kind == "type":
+            # field-less enums keep their derived PartialEq/Eq/Clone/Copy (plus Verus' `Structural`,
+            # which gives exec `==` its meaning): derived equality of a C-like enum is variant equality
+            # attributes precede the item text: look at the lines just above it
+            above = it.src.text[max(0, it.start - 600):it.start]
+            above = above[above.rfind("\n\n") + 1:] if "\n\n" in above else above
+            mder = None
+            for mm_ in re.finditer(r"#\[derive\(([^)]*)\)\]", above):
+                mder = mm_
+            body0 = it.text[it.text.find("{") + 1:it.text.rfind("}")] if "{" in it.text else ""
+            body0 = re.sub(r"//[^\n]*", "", body0)
+            if (mder and re.search(r"\benum\b", it.text.split("{")[0]) and "(" not in body0 and "{" not in body0
+                    and "PartialEq" in mder.group(1) and "Eq" in mder.group(1)):
+                keep = [d.strip() for d in mder.group(1).split(",") if d.strip() in ("PartialEq", "Eq", "Clone", "Copy")]
+                self.raw("#[derive(%s, Structural)]" % ", ".join(keep), fn=gname)
+                self.rules_used["R0d"] = self.rules_used.get("R0d", 0) + 1
             if re.search(r"\bstruct\b", text.split("{")[0].split("(")[0]):
                 # R0: private named fields -> pub (visibility has no run-time meaning)
                 text, nf = rw.sub(r"(?m)^(\s+)(?!pub\b)([a-z_][A-Za-z0-9_]*\s*:(?!:))", r"\1pub \2", text)
@@ -463,6 +478,26 @@ class UnitFile:
         self.raw("proof fn %s() {" % name, fn=name)
         self.raw("    assert(false);", kind="canary", fn=name)
         self.raw("}", fn=name)
+
+    def append_missing_fn(self, name, rules=()):
+        """A function the extracted code calls but the unit did not name (e.g. a helper added by a
+        refactoring): extract it from one of the unit's source files, without a contract, and
+        place it before the closing footer.  Returns True if found."""
+        for rel in list(self._sources.keys()):
+            try:
+                self._sources[rel].find_fn(name)
+            except ExtractError:
+                continue
+            footer = []
+            while self.lines and (self.lines[-1].strip() in ("fn main() {}", "} // verus!", "") or self.lines[-1].startswith("} // verus")):
+                footer.insert(0, (self.lines.pop(), self.tags.pop()))
+            self.add_fn(rel, name, rules=rules)
+            self.auto_added = getattr(self, "auto_added", []) + [name]
+            for (ln, tg) in footer:
+                self.lines.append(ln)
+                self.tags.append(tg)
+            return True
+        return False
 
     # ------------------------------------------------------------------
     def text(self):
